@@ -1546,7 +1546,12 @@ class Model(Object):
         new_model.objective = dict(
             left=self.objective,
             right=right.objective,
-            sum=self.objective.expression + right.objective.expression,
+            # (a bare expression would become a maximisation objective)
+            sum=self.problem.Objective(
+                self.objective.expression + right.objective.expression,
+                direction=self.objective_direction,
+                sloppy=False,
+            ),
         )[objective]
         return new_model
 
